@@ -43,7 +43,8 @@ ASSUMPTIONS = [
     "legitimately declare itself unable to save)",
 ]
 REQUIRED = {"faults_fired": 300, "exception_faults": 100, "death_faults": 100, "midwrite_faults": 20,
-            "states_verified": 300, "retries_ok": 300, "fs_events_recorded": 200, "double_faults": 10}
+            "states_verified": 300, "retries_ok": 300, "fs_events_recorded": 200, "double_faults": 10,
+            "inline_faults_fired": 40}
 UNIT_TIMEOUT = 1500
 
 ROWS = [(0, 500, 1), (800, 1200, 2), (3000, 3500, 3), (3600, 4000, 4), (6000, 6400, 5), (9000, 9300, 6)]
@@ -253,6 +254,146 @@ def run_fault(cfg, fault, n_events=None, second=None):
     return viol, cnt, fired
 
 
+# ---------------------------------------------------------------- inlined (forked) savers
+MP_ROWS = ((0, 500, 1), (800, 1200, 2), (3000, 3500, 3), (3600, 4000, 4), (6000, 6400, 5), (9000, 9300, 6))
+MP_CUTS = (0, 2000, 5000, 10000)
+MP_TYPES = ("mpsrc", "mprow", "mpma", "mpmb", "mptop")
+
+
+def mp_context(d, fault=None, **kw):
+    from vf.harness import mp_plugins as mp
+
+    cfg = dict(mp_rows=MP_ROWS, mp_cuts=MP_CUTS)
+    if fault is not None:
+        cfg["mp_fault"] = fault
+    return strax.Context(storage=[strax.DataDirectory(d)], register=mp.ALL_INLINE, config=cfg, **kw)
+
+
+def mp_make(d, fault=None):
+    """plugins with parallel='process' + their savers are inlined into a ParallelSourcePlugin and run in a
+    process pool (savers 'forked': chunk files are written by the worker processes, metadata by the parent)"""
+    import multiprocessing as _mp
+
+    if _mp.get_start_method(allow_none=True) != "forkserver":
+        _mp.set_start_method("forkserver", force=True)
+        # the fork server imports strax once; pool workers forked from it start in milliseconds
+        _mp.set_forkserver_preload(["strax", "vf.harness.mp_plugins"])
+    st = mp_context(d, fault, allow_multiprocess=True, allow_lazy=False, max_messages=10, timeout=60,
+                    processors=["threaded_mailbox"])
+    with common.quiet():
+        st.make("0", "mptop", progress_bar=False, max_workers=2)
+
+
+def mp_verify(d, out, when):
+    v, stored = [], set()
+    for dt in MP_TYPES:
+        st = mp_context(d, processors=["single_thread"], forbid_creation_of=("*",))
+        try:
+            is_st = st.is_stored("0", dt)
+        except Exception as e:  # noqa: BLE001
+            v.append(("is-stored-crashed", f"{when}: is_stored({dt}) raised {e!r}", e))
+            continue
+        try:
+            with common.quiet():
+                got = st.get_array("0", dt, progress_bar=False)
+            exc = None
+        except Exception as e:  # noqa: BLE001
+            got, exc = None, e
+        if is_st:
+            stored.add(dt)
+            if exc is not None:
+                v.append(("stored-unloadable", f"{when}: {dt} is reported stored but loading failed: {exc!r}", exc))
+            elif not oracle.rows_equal(got, out[dt]):
+                v.append(("stored-wrong", f"{when}: {dt} is reported stored but loads {got.tolist()} instead of {out[dt].tolist()}", None))
+        elif exc is None:
+            v.append(("partial-visible", f"{when}: {dt} is reported unavailable but get_array returned {len(got)} rows", None))
+        elif not isinstance(exc, strax.DataNotAvailable):
+            v.append(("unavailable-wrong-error", f"{when}: {dt} unavailable, but loading raised {exc!r} instead of DataNotAvailable", exc))
+    return v, stored
+
+
+def run_inline_fault(fault):
+    """fault: {'where': 'child', dtype, chunk, op, mode} or {'where': 'parent', 'k': event index}."""
+    from vf.harness import mp_plugins as mp
+
+    viol, cnt = [], {}
+    out = mp.whole_run(list(MP_ROWS))
+    d = hrun.mktemp("c04i-")
+    marker = d.rstrip("/") + ".fired"
+
+    def add(kind, text, exc=None, **extra):
+        sig = {"kind": kind, "fault": fault.get("mode", "raise"), "pool": True, "processor": "threaded_mailbox", "inlined_savers": True,
+               "where": fault["where"]}
+        sig.update(extra)
+        if exc is not None:
+            sig.update(common.exc_sig(exc))
+        viol.append({"sig": sig, "what": f"{kind}: {text}"[:600], "case": {"inline": True, "fault": dict(fault)}})
+
+    try:
+        exc = None
+        if fault["where"] == "child":
+            spec = {"dtype": fault["dtype"], "chunk": fault["chunk"], "op": fault["op"], "mode": fault["mode"], "marker": marker}
+            try:
+                mp_make(d, spec)
+            except BaseException as e:  # noqa: BLE001
+                exc = e
+            fired = os.path.exists(marker)
+        else:
+            fsaudit.arm(d, fault_at=fault["k"], fault_kind="raise")
+            try:
+                mp_make(d)
+            except BaseException as e:  # noqa: BLE001
+                exc = e
+            ev, fired = fsaudit.disarm()
+            fault["event"] = next((e for e in ev if e.get("fault")), None)
+        if exc is not None and "Timeout" in type(exc).__name__:
+            cnt["inline_timeouts"] = 1
+        if fired:
+            cnt["faults_fired"] = 1
+            cnt["inline_faults_fired"] = 1
+            cnt["death_faults" if fault.get("mode") == "exit" else "exception_faults"] = 1
+        vs, stored = mp_verify(d, out, "after the fault")
+        cnt["states_verified"] = 1
+        for kind, text, e in vs:
+            add(kind, text, e)
+        ev0 = fault.get("event") or {}
+        root_mkdir = ev0.get("op") == "os.mkdir" and ev0.get("path") in (".", "")
+        if fired and exc is None and not root_mkdir:
+            missing = [dt for dt in MP_TYPES if dt not in stored]
+            if missing:
+                add("false-success", f"the faulted call ({fault}) returned normally but {missing} were not saved", None, op=fault.get("op") or ev0.get("op"))
+        try:
+            mp_make(d)
+            vs, stored = mp_verify(d, out, "after the retry")
+            for kind, text, e in vs:
+                add(kind, text, e)
+            if "mptop" not in stored:
+                add("retry-incomplete", f"the retry returned normally but its target is not stored (stored: {sorted(stored)})")
+            else:
+                cnt["retries_ok"] = 1
+        except Exception as e:  # noqa: BLE001
+            add("retry-failed", f"identical retry without cleanup failed: {e!r}", e)
+    finally:
+        hrun.rm(d)
+        if os.path.exists(marker):
+            os.remove(marker)
+    return viol, cnt, fired
+
+
+def inline_faults(tier, shard, nshards):
+    q = tier == "quick"
+    nchunks = len(MP_CUTS) - 1
+    out = []
+    for dtype in MP_TYPES:
+        for chunk in range(nchunks):
+            for op in ("open:w", "os.rename", "meta"):
+                for mode in ("raise", "exit"):
+                    if q and (chunk == 1 or (chunk == 2 and mode == "exit")):
+                        continue
+                    out.append({"where": "child", "dtype": dtype, "chunk": chunk, "op": op, "mode": mode})
+    return [f for i, f in enumerate(out) if i % nshards == shard]
+
+
 def record_events(cfg):
     spec = graph(cfg["graph"], cfg["rechunk"])
     d = hrun.mktemp("c04-")
@@ -272,13 +413,40 @@ def units(tier, seed):
     if tier == "quick":
         # quick: 12 of the 18 configurations (rotating with the seed), all fault kinds
         cs = [(i, c) for i, c in cs if (i + seed) % 3 != 2]
-    return [{"name": f"cfg-{i}", "cfg": c, "seed": seed, "tier": tier} for i, c in cs]
+    us = [{"name": f"cfg-{i}", "cfg": c, "seed": seed, "tier": tier} for i, c in cs]
+    nsh = 8
+    us += [{"name": f"inline-{k}", "fam": "inline", "shard": k, "nshards": nsh, "seed": seed, "tier": tier} for k in range(nsh)]
+    return us
 
 
 def run_unit(u):
     fsaudit.install()
     res = {"evaluations": 0, "distinct": 0, "counters": {}, "samples": [], "violations": [], "inconclusive": []}
     cnt = res["counters"]
+    if u.get("fam") == "inline":
+        faults = inline_faults(u["tier"], u["shard"], u["nshards"])
+        # parent-side events of the same configuration (metadata writes, final renames happen in the parent)
+        d0 = hrun.mktemp("c04i-")
+        try:
+            fsaudit.arm(d0)
+            mp_make(d0)
+            ev, _ = fsaudit.disarm()
+        finally:
+            hrun.rm(d0)
+        npar = len([e for e in ev if "k" in e])
+        cnt["fs_events_recorded"] = len(ev)
+        faults += [{"where": "parent", "k": k} for k in range(npar) if k % u["nshards"] == u["shard"]]
+        for fault in faults:
+            viol, c, fired = run_inline_fault(fault)
+            res["evaluations"] += 1
+            if fired:
+                res["distinct"] += 1
+            for k, v in c.items():
+                cnt[k] = cnt.get(k, 0) + v
+            if len(res["violations"]) < 25:
+                res["violations"].extend(viol[:2])
+        res["samples"].append({"inlined_savers": True, "child_fault_positions": len(faults), "parent_events": npar})
+        return res
     cfg = u["cfg"]
     q = u["tier"] == "quick"
     ev, n, nwrites = record_events(cfg)
@@ -311,6 +479,9 @@ def run_unit(u):
 
 def replay(case):
     fsaudit.install()
+    if case.get("inline"):
+        viol, c, fired = run_inline_fault(dict(case["fault"]))
+        return viol
     viol, c, fired = run_fault(case["cfg"], dict(case["fault"]), None, case.get("second"))
     return viol
 
